@@ -9,4 +9,8 @@ CLAIMED = {
         "text": "Full proof on the model: construction refuses count/length mismatches, get domain, iteration and bulk read yield exactly 0..len-1, size hints truthful for every iterator state, history invariant. Model is tied to the crate by 1500 (quick) / 30000 (thorough) random access histories compared observation by observation.",
         "note": "Arrays are abstracted to their lengths; value-level reading of an item is C02. Trusted: Coq kernel, the harness, rustc/serde/marrow/arrow.",
     },
+    "C20": {
+        "text": "Full proof on the model: check_permutation accepts exactly the permutations of 0..ndim (iff, any length); dim-name and uniform-shape arity checks; the metadata text of both tensor helpers equals the compact print of the configured JSON object and a JSON reader parses it back to exactly that object (general print/parse round trip proved for all JSON values, strings with escapes included); element count = checked product within i32; no panic. Tied to the crate by exhaustive enumeration of all index lists of length ndim<=4 plus random configurations, metadata compared byte for byte; serde_json referee on the Rust side.",
+        "note": "JSON spec is the compact reader in coq/Codec/Json.v; element field conversion (transmute_field) is sampled with one element type only. Trusted: Coq kernel, harness, serde_json as referee.",
+    },
 }
